@@ -32,7 +32,7 @@ type lin struct {
 }
 
 func linConst(c int64) lin { return lin{c: c} }
-func linSym(s sym) lin    { return lin{t: map[sym]int64{s: 1}} }
+func linSym(s sym) lin     { return lin{t: map[sym]int64{s: 1}} }
 
 func (a lin) add(b lin) lin {
 	r := lin{c: a.c + b.c, t: map[sym]int64{}}
